@@ -51,6 +51,15 @@ func c12Session(r *rng, t *tree, me int, n int) []creq {
 	var reqs []creq
 	opened := false
 	created := false
+	// half of the clients start with a burst on the SAME encrypted image (reads inside its encrypted
+	// regions, aligned and not): per-image scratch state (IV, cipher mode) must not be shared
+	if me%2 == 0 {
+		reqs = append(reqs, creq{op: opOpenFile, path: "/PS3ISO/enc.iso"})
+		for k := 0; k < 6; k++ {
+			reqs = append(reqs, creq{op: opReadFile, a: uint64(r.pick(2048, 4096, 5000, 16384)), b: uint64(2*2048 + r.pick(0, 1, 100, 2048, 3000, 4096))})
+		}
+		opened = true
+	}
 	for len(reqs) < n {
 		switch k := r.intn(100); {
 		case k < 18:
@@ -122,7 +131,7 @@ func c12Stream(o *out, r *rng, thorough bool) {
 		t := c12Tree(r, nc)
 		sessions := make([][]creq, nc)
 		for i := range sessions {
-			sessions[i] = c12Session(r, t, i, 10+r.intn(25))
+			sessions[i] = c12Session(r, t, i, 12+r.intn(25))
 		}
 		withTempRoot(func(root string) {
 			if err := t.materialize(root); err != nil {
